@@ -26,6 +26,7 @@ UNIVERSE = [
     [0o1, 0o0, 7, 65, 9, "bb02ff"],  # same (origin, id, type) as #0, different body
     [0o2, 0o0, 7, 65, 0, "cc"],
     [0o1, 0o0, 8, 0, 255, ""],
+    [0o1, 0o100, 7, 65, 0, "dd"],  # same (origin, id, type) as #0, another destination (direct vs multicast copy)
 ]
 
 
@@ -81,6 +82,27 @@ def run_case(case):
                         got, exp, len(model), model.max_size))
                 if _tuple(fr) != spec:
                     res.fail("C12/enqueue-mutates-argument", "frame passed to enqueue() was changed")
+            elif kind == "enqfrag":
+                # a complete fragmented message (FIRST .. LAST) presented to the fragment-aware queue: the reassembled
+                # message enters the queue like any other frame (capacity, duplicate key, return value)
+                if not frag:
+                    continue
+                from vlib.ref import frag as rfrag
+                spec = _spec(frames[op[1] % len(frames)])
+                if spec[3] in (148, 149, 150):
+                    continue
+                body = (spec[5] + bytes(range(40)))[:30 + (op[1] % 3) * 24]
+                exp = model.enqueue((spec[0], spec[1], spec[2], spec[3], spec[3], body))
+                got = None
+                for raw in rfrag.fragment(spec[0], spec[1], spec[2], spec[3], body):
+                    fr = S.RF24NetworkFrame()
+                    fr.unpack(raw)
+                    got = q.enqueue(fr)
+                if bool(got) != exp:
+                    res.fail("C12/enqueue-return/reassembled", "last fragment's enqueue returned %r, reference %r (len %d, max %d)" % (
+                        got, exp, len(model), model.max_size))
+                if not exp:
+                    interesting = True
             elif kind == "mut":
                 fr = shared[op[1] % 2]
                 fr.header.from_node ^= 0o5
@@ -149,7 +171,7 @@ def run_case(case):
 
 
 ALPHA = [["enq", 0, 0], ["enq", 1, 1], ["enq", 2, 2], ["enq", 3, 0], ["mut", 0], ["deq"], ["maxq", 1], ["maxq", 3],
-         ["toggle"]]
+         ["toggle"], ["enqfrag", 0], ["enq", 4, 0]]
 
 
 def _enum(depth):
@@ -170,6 +192,7 @@ def _strategy():
         st.tuples(st.just("enq"), st.integers(0, 5), st.integers(0, 2)).map(list),
         st.tuples(st.just("enq"), st.integers(0, 5), st.integers(0, 2)).map(list),
         st.tuples(st.just("mut"), st.integers(0, 1)).map(list),
+        st.tuples(st.just("enqfrag"), st.integers(0, 5)).map(list),
         st.just(["deq"]), st.just(["peek"]),
         st.tuples(st.just("maxq"), st.integers(0, 8)).map(list),
         st.just(["toggle"]),
@@ -224,6 +247,11 @@ def _machine():
             spec = [it[0], it[1], it[2], it[3], (it[4] + 1) % 256 if other_body else it[4], (body if other_body else it[5]).hex()]
             self.ops.append(["enq", self._frame(spec), mode])
             self.model.enqueue((spec[0], spec[1], spec[2], spec[3], spec[4], bytes.fromhex(spec[5])))
+
+        @precondition(lambda self: len(self.frames) > 0)
+        @rule(k=st.integers(0, 5))
+        def enqueue_reassembled(self, k):
+            self.ops.append(["enqfrag", k % len(self.frames)])
 
         @precondition(lambda self: bool(self.shared))
         @rule(k=st.integers(0, 1))
